@@ -17,7 +17,7 @@ import (
 func (c *Ctx) newEval() *ssaeval.Eval {
 	ev := &ssaeval.Eval{MaxDepth: 5, MaxPaths: 400}
 	ev.Follow = func(fn *ssa.Function) bool {
-		return fn.Pkg != nil && strings.HasPrefix(fn.Pkg.Pkg.Path(), prog.ModulePath)
+		return inModule(fn)
 	}
 	ev.Oracle = func(callee *ssa.Function, args []ssaeval.Value) (ssaeval.Value, bool) {
 		if c.pureNonNil(callee) {
@@ -46,7 +46,7 @@ func (c *Ctx) pureNonNil(fn *ssa.Function) bool {
 	}
 	c.pureNN[fn] = 3
 	ok := func() bool {
-		if fn.Pkg == nil || !strings.HasPrefix(fn.Pkg.Pkg.Path(), prog.ModulePath) || len(fn.Blocks) == 0 {
+		if !inModule(fn) || len(fn.Blocks) == 0 {
 			return false
 		}
 		res := fn.Signature.Results()
@@ -62,7 +62,7 @@ func (c *Ctx) pureNonNil(fn *ssa.Function) bool {
 		}
 		ev := &ssaeval.Eval{MaxDepth: 4, MaxPaths: 300}
 		ev.Follow = func(g *ssa.Function) bool {
-			return g.Pkg != nil && strings.HasPrefix(g.Pkg.Pkg.Path(), prog.ModulePath)
+			return inModule(g)
 		}
 		for _, o := range ev.Run(fn, args) {
 			if o.Incomplete != "" || o.Panics || len(o.Rets) != 1 {
@@ -86,4 +86,12 @@ func (c *Ctx) pureNonNil(fn *ssa.Function) bool {
 		c.pureNN[fn] = 2
 	}
 	return ok
+}
+
+// inModule: the function (or, for an instance of a generic function, its origin) is declared in the analysed module.
+func inModule(fn *ssa.Function) bool {
+	if o := fn.Origin(); o != nil {
+		fn = o
+	}
+	return fn.Pkg != nil && strings.HasPrefix(fn.Pkg.Pkg.Path(), prog.ModulePath)
 }
